@@ -10,7 +10,6 @@ OerLen(n) == IF n < 128 THEN <<n>> ELSE LET o == NatOfInt(n) IN <<128 + Len(o)>>
 WithLen(o) == OerLen(Len(o)) \o o
 
 \* ---- 8.2 OER-visible constraints: an extensible constraint is not visible
-OerEff(c) == LET e == Eff(c) IN IF e.has /\ ~e.ext THEN e ELSE Unconstrained
 OerEffSize(c) == LET e == EffSize(c) IN IF e.has /\ ~e.ext THEN e
                  ELSE [has |-> FALSE, lb |-> BI(0), ub |-> BMax, ext |-> FALSE]
 
